@@ -48,6 +48,9 @@ def run(out, tier, seed):
     cases += list(shapes.literal_graphs(2 if quick else 3, variant=seed, classes=None if not quick else None))
     if not quick:
         cases += list(shapes.literal_graphs(2, variant=seed + 1))
+    # markup and CDATA end markers (what an XML writer may wrap in a CDATA section)
+    for i, text in enumerate(["<p>x</p>", "a ]]> b", "<a>]]>", "<![CDATA[x]]>", "]]>", "<script><![CDATA[ if (a[b[0]]>1) x() ]]></script>", "a<b>c]]", "]]&gt;<x>"]):
+        cases.append(("markup:%d" % i, [[shapes.S1, shapes.P1, shapes.L(text)], [shapes.S1, shapes.P2, shapes.L(text, lang="en")]], True))
     cases += list(shapes.typed_literal_graphs()) + list(shapes.iri_graphs()) + list(shapes.list_graphs())
     cases += list(shapes.bnode_graphs(dig if not quick else rng.sample(dig, 40)))
     out.extra["shapes"] = len(cases)
